@@ -454,4 +454,60 @@ example : running Rules.code 1 "a1" [.add 1 "a1", .add 2 "a2", .add 2 "a2'"] 2 =
 example : restarted Rules.code 1 "a1" 1 "a1" [.add 1 "a1", .add 2 "a2", .add 3 "a3", .other] 4 2 = some "a2" := by decide
 example : (replay Rules.code Book.empty ([ZEntry.add 1 "a1", .add 2 "a2", .add 3 "a3", .other].take 4)) 1 ≠ none := by decide
 
+
+/-! ## reaching a member that left and joined again (`RaftTransport`'s client cache, `cluster.Conn`)
+
+Listing a member is not reaching it. The transport keeps one client per peer; `Conn.RemoveNode` closes
+the connection under it. `drops` is whether a failed send makes the transport forget the cached client
+(the regenerated fact `snapshotSendFailureAlwaysReported` covers that line too). -/
+
+/-- what a member holds about one peer: its address in the book, and the cached client (the address it
+was dialled at, and whether its connection is still open) -/
+structure Peer where
+  book : Option String
+  cache : Option (String × Bool)
+deriving DecidableEq, Repr
+
+/-- `Conn.RemoveNode`: the address goes, the connection is closed — the transport's cached client
+still points at it -/
+def Peer.remove (p : Peer) : Peer := ⟨none, p.cache.map fun c => (c.1, false)⟩
+
+/-- the peer is admitted again (membership entry applied) -/
+def Peer.add (p : Peer) (a : String) : Peer := { p with book := some a }
+
+/-- one send to the peer, which listens at `at_`: delivered or not, and what the member holds afterwards -/
+def Peer.send (drops : Bool) (at_ : String) (p : Peer) : Peer × Bool :=
+  match p.cache with
+  | some (a, true) => if a = at_ then (p, true) else ((if drops then { p with cache := none } else p), false)
+  | some (_, false) => ((if drops then { p with cache := none } else p), false)
+  | none =>
+    match p.book with
+    | some a => ({ p with cache := some (a, true) }, a = at_)
+    | none => (p, false)
+
+/-- **a member that left and joined again is reached**: whatever the sender held about it, after it has
+applied the removal and the re-admission the second send at the latest is delivered -/
+theorem rejoined_member_is_reached (p : Peer) (a : String) :
+    let p1 := (p.remove.add a)
+    ((Peer.send true a (Peer.send true a p1).1).2 = true) := by
+  cases p with
+  | mk book cache =>
+    cases cache with
+    | none => simp [Peer.remove, Peer.add, Peer.send]
+    | some c => cases c with
+      | mk addr isOpen => simp [Peer.remove, Peer.add, Peer.send]
+
+/-- a transport that keeps its cached client for ever (the code before the repair D34) never reaches
+it again: every send goes to the closed connection and leaves everything as it was -/
+theorem stale_client_never_reaches (book : Option String) (addr a : String) (isOpen : Bool) :
+    let p1 := ((⟨book, some (addr, isOpen)⟩ : Peer).remove.add a)
+    Peer.send false a p1 = (p1, false) := by
+  simp [Peer.remove, Peer.add, Peer.send]
+
+
+/-- a failed send makes the transport dial the peer again, and a replica change for a partition whose
+group is not loaded (a member replaying its own removal) is an error, not a nil dereference (regenerated) -/
+theorem rejoin_repairs_in_code : Generated.snapshotSendFailureAlwaysReported = true ∧
+    Generated.replicaChangeChecksGroupLoaded = true := by decide
+
 end Anndb.Members
